@@ -51,6 +51,12 @@ func (s *LocalSecretStore) AddOrUpdateSecret(secret *api_v1.Secret) {
 	if !exists {
 		secretRef = &SecretReference{Secret: secret}
 	} else {
+		if secretRef.Path != "" && secretRef.Secret.Type != secret.Type {
+			// the type of a Secret is immutable, so this is a Secret that was deleted and created again with another type.
+			// The files of the old type are not the files of the new one: remove them; the new ones are written on the next GetSecret.
+			s.manager.DeleteSecret(getResourceKey(&secret.ObjectMeta))
+			secretRef.Path = ""
+		}
 		secretRef.Secret = secret
 	}
 
